@@ -526,6 +526,37 @@ pub fn call_intres<O: IntRes + ?Sized>(rv: &mut Recv<O>, mi: usize, a: &mut A) -
     }
 }
 
+pub const INTRESMIXED: [Meth; 4] = [m("irm_marked"), m("irm_plain"), m("irm_marked_unit"), m("irm_plain_pair")];
+
+pub fn call_intresmixed<O: IntResMixed + ?Sized>(rv: &mut Recv<O>, mi: usize, a: &mut A) -> Ret {
+    let o = rv.r();
+    match mi {
+        0 => {
+            let code = a.i32(0);
+            match o.irm_marked(code) {
+                Ok(v) => Ret::Ok_(Box::new(Ret::U(v))),
+                Err(e) => io_ret(code, false, e),
+            }
+        }
+        1 => {
+            // not integer-coded: the error value itself crosses the boundary and must be identical
+            match o.irm_plain(a.i32(0), a.raw(1) == 3) {
+                Ok(v) => Ret::Ok_(Box::new(Ret::U(v))),
+                Err(e) => Ret::Err_(Box::new(Ret::Multi(vec![Ret::I(e.raw_os_error().map(|x| x as i64).unwrap_or(i64::MIN)), Ret::Str(format!("{:?}", e.kind()))]))),
+            }
+        }
+        2 => match o.irm_marked_unit(a.flag(0)) {
+            Ok(()) => Ret::Ok_(Box::new(Ret::Unit)),
+            Err(()) => Ret::Err_(Box::new(Ret::Unit)),
+        },
+        3 => match o.irm_plain_pair(a.i32(0)) {
+            Ok(p) => Ret::Ok_(Box::new(Ret::P(p))),
+            Err(e) => Ret::Err_(Box::new(Ret::I(e.0 as i64))),
+        },
+        _ => Ret::NoSuchMethod,
+    }
+}
+
 pub const INTRESALIAS: [Meth; 2] = [m("ira_io"), m("ira_plain")];
 
 pub fn call_intresalias<O: IntResAlias + ?Sized>(rv: &mut Recv<O>, mi: usize, a: &mut A) -> Ret {
@@ -705,7 +736,7 @@ where
     }
 }
 
-pub const CHILDRENMORE: [Meth; 2] = [m("m_res"), m("m_peek")];
+pub const CHILDRENMORE: [Meth; 3] = [m("m_res"), m("m_peek"), m("m_res_plain")];
 
 pub fn call_childrenmore<O>(rv: &mut Recv<O>, mi: usize, a: &mut A) -> Ret
 where
@@ -718,17 +749,31 @@ where
             Err(()) => Ret::Err_(Box::new(Ret::Unit)),
         },
         1 => Ret::U(rv.r().m_peek()),
+        2 => match rv.r().m_res_plain(a.flag(0)) {
+            Ok(c) => Ret::Ok_(Box::new(Ret::Obj(c.into_dyn()))),
+            Err(()) => Ret::Err_(Box::new(Ret::Unit)),
+        },
         _ => Ret::NoSuchMethod,
     }
 }
 
-pub const CHILDRENMORE_BYVAL: [Meth; 1] = [m("m_consume")];
-pub fn consume_childrenmore<O>(o: O, _mi: usize, a: &mut A) -> Ret
+pub const CHILDRENMORE_BYVAL: [Meth; 3] = [m("m_consume"), m("m_try"), m("m_try_plain")];
+pub fn consume_childrenmore<O>(o: O, mi: usize, a: &mut A) -> Ret
 where
     O: ChildrenMore,
     O::MChild: IntoDyn<KBasic>,
 {
-    Ret::Obj(o.m_consume(a.u(0)).into_dyn())
+    match mi {
+        0 => Ret::Obj(o.m_consume(a.u(0)).into_dyn()),
+        1 => match o.m_try(a.flag(0)) {
+            Ok(c) => Ret::Ok_(Box::new(Ret::Obj(c.into_dyn()))),
+            Err(()) => Ret::Err_(Box::new(Ret::Unit)),
+        },
+        _ => match o.m_try_plain(a.flag(0)) {
+            Ok(c) => Ret::Ok_(Box::new(Ret::Obj(c.into_dyn()))),
+            Err(()) => Ret::Err_(Box::new(Ret::Unit)),
+        },
+    }
 }
 
 /// Variants for receivers whose associated types are opaque (`as_ref!`, `as_mut!`, `into!` return
@@ -764,6 +809,10 @@ pub fn call_childrenmore_opaque<O: ChildrenMore + ?Sized>(rv: &mut Recv<O>, mi: 
             Err(()) => Ret::Err_(Box::new(Ret::Unit)),
         },
         1 => Ret::U(rv.r().m_peek()),
+        2 => match rv.r().m_res_plain(a.flag(0)) {
+            Ok(c) => Ret::Ok_(Box::new(Ret::U(c.b_get()))),
+            Err(()) => Ret::Err_(Box::new(Ret::Unit)),
+        },
         _ => Ret::NoSuchMethod,
     }
 }
